@@ -639,7 +639,7 @@ def c12_raising(tier, rnd):
 CAUGHT = ["AttributeError", "NameError", "LookupError", "TypeError", "ValueError", "KeyError", "UnicodeError", "IndexError", "SubLookup",
           "UnboundLocalError"]
 NOTCAUGHT = ["ZeroDivisionError", "RuntimeError"]
-WRAPS = ["lambda", "lamarg", "listcomp", "genexp", "cond", "dictitem", "setcomp", "paren", "compx", "genx", "lamdef", "nestlam", "lamkw"]
+WRAPS = ["lambda", "lamarg", "listcomp", "genexp", "cond", "dictitem", "setcomp", "paren", "compx", "genx", "lamdef", "nestlam", "lamkw", "nlstr", "nlcomment"]
 
 
 def shapes(al, tier, excs, ok=None):
@@ -1491,6 +1491,20 @@ def c10_family(tier, rnd):
                               ia=[("alt", ids[1])], i18n={"c": "ctx"}), CLOSE,
                          CLOSE, Open(name="img", sattr=["title"], ia=[("title", ids[0])]), CLOSE]
                 add(items, al, "T10:%s:%s:%s" % ("/".join(ids), v, ",".join(names)), v)
+    # T11: tal:content on an element marked i18n:translate="": the value is offered as the message id; with `default` the
+    # element's own content is the message (named children and all)
+    cvals = [S("a"), S("h"), S(""), NONE, DEFAULT, I(7), OBJ("msg")] if not quick else [S("h"), NONE, DEFAULT, OBJ("msg")]
+    # (text mode only: with the `structure:` spelling the value is converted before it is offered and what the function
+    # returns is escaped again -- not modelled)
+    for structure in (False,):
+        for v in variants:
+            al = Alloc(tier)
+            items = [Text("pre"), Open(name="div", i18n={"d": "dom"}, sattr=[]),
+                     Open(name="p", tr="", sub=("content", structure, al.call("content", cvals)), sattr=["class"]),
+                     Text("Hello  \n "), Open(name="b", nm="who", sattr=[]), Text("N", al.call("content", vals)), CLOSE, Text(" !"), CLOSE,
+                     Open(name="i", tr="", sub=("content", structure, al.call("content", cvals)), sattr=[]), CLOSE,
+                     CLOSE, Text("post")]
+            add(items, al, "T11:%s:%s" % (structure, v), v)
     # T8: the translation settings of a subtree that failed under tal:on-error end with it
     for sets in ({"d": "inner"}, {"c": "ic", "t": "fr"}, {"d": "inner", "c": "ic", "t": "de"}):
         for outer in ({}, {"d": "outer"}):
